@@ -187,6 +187,7 @@ func genSched(t *rapid.T, maxDec int) Sched {
 	// how many steps a runnable watermark goroutine may be passed over (lagging
 	// DoneUntil values are what conflict-log cleanup and discard decisions see)
 	s.WmLeash = rapid.SampledFrom([]int{0, 0, 12, 30}).Draw(t, "wm_leash")
+	s.LockYield = rapid.SampledFrom([]int{0, 0, 10, 40}).Draw(t, "lock_yield")
 	return s
 }
 
@@ -295,7 +296,9 @@ func genClientN(t *rapid.T, p *Profile, cfg *Config, nkeys, maxOps, clientIdx in
 				if p.TsNarrow {
 					ops = append(ops, Op{K: "discard_ts", Ts: uint64(rapid.IntRange(1, 10).Draw(t, "discard_ts_n"))})
 				} else {
-					ops = append(ops, Op{K: "discard_ts", Ts: uint64(rapid.IntRange(1, 30).Draw(t, "discard_ts"))})
+					// up to the middle of the commit-timestamp range: tombstones and old
+					// versions fall below the discard timestamp and compaction may drop them
+					ops = append(ops, Op{K: "discard_ts", Ts: uint64(rapid.IntRange(1, 70).Draw(t, "discard_ts"))})
 				}
 			case x < p.WDiscardTs+p.WMBatch:
 				nb := rapid.IntRange(1, 8).Draw(t, "mbatch_n")
